@@ -1,4 +1,28 @@
+mod bq;
+mod f32;
+mod int8;
+mod qops;
+mod util;
+
 fn main() {
-    eprintln!("usage: vh-gemm <subcommand> [options]");
-    std::process::exit(2);
+    let cmd = std::env::args().nth(1).unwrap_or_default();
+    match cmd.as_str() {
+        "f32" => f32::main_f32(),
+        "int8" => int8::main_int8(),
+        "qops" => qops::main_qops(),
+        "bq" => bq::main_bq(),
+        "int8-repro" => int8::main_repro(),
+        "f32-kernels" => println!(
+            "{}",
+            vcommon::json!(rten_gemm::verif::f32_kernel_names())
+        ),
+        "int8-kernels" => println!(
+            "{}",
+            vcommon::json!(rten_gemm::verif::int8_kernel_names())
+        ),
+        _ => {
+            eprintln!("usage: vh-gemm <f32|int8|qops|bq> [options]");
+            std::process::exit(2);
+        }
+    }
 }
